@@ -11,7 +11,7 @@ trap 'git -C /repo checkout -- . ; rm -rf evidence; mv /tmp/verif-evidence-backu
 TIER="${TIER:-quick}"
 for id in "$@"; do
     out=$(./check "$id" "$TIER" 2>&1); rc=$?
-    line=$(echo "$out" | grep -E "^(VIOLATION|OK|INCONCLUSIVE|BUILD-FAILED|INFRASTRUCTURE)" | head -1)
-    clause=$(echo "$out" | grep -E "^violated clause" | head -1 | cut -c1-220)
+    line=$(echo "$out" | grep -aE "^(VIOLATION|OK|INCONCLUSIVE|BUILD-FAILED|INFRASTRUCTURE)" | head -1)
+    clause=$(echo "$out" | grep -aE "^violated clause" | head -1 | cut -c1-220)
     echo "$id rc=$rc $line | $clause"
 done
